@@ -17,6 +17,7 @@ Section Spec.
   Variable ieqb : item -> item -> bool.
   Variable valid : item -> bool.
   Variable key_of_key : K -> option K.
+  Variable hashable : item -> bool.
 
   Notation dict := (@dict item K).
   Notation arg := (@arg item K).
@@ -165,13 +166,15 @@ Section Spec.
     | OKeys => (Ok (RKeys (map fst m)), m)
     | OItems => (Ok (RPairs m), m)
     (* == is mapping equality: same keys, equal items; against a built-in
-       set: the same items *)
+       set: the same items (and False when a stored item is unhashable, as
+       the code documents) *)
     | OEq p | ONe p =>
         let e := match p with
                  | PKS _ xs => dict_eq keqb ieqb m (the_map xs)
                  | PSelf => dict_eq keqb ieqb m m
-                 | PSet xs => forallb (fun v => existsb (fun y => ieqb v y) xs) (vals m)
-                              && forallb (fun y => existsb (fun v => ieqb v y) (vals m)) xs
+                 | PSet xs => forallb hashable (vals m)     (* an unhashable item: never equal *)
+                              && (forallb (fun v => existsb (fun y => ieqb v y) xs) (vals m)
+                                  && forallb (fun y => existsb (fun v => ieqb v y) (vals m)) xs)
                  | PList _ => false
                  end in
         (Ok (RBool (match o with ONe _ => negb e | _ => e end)), m)
